@@ -226,7 +226,7 @@ def deliver(rng, units, mx, submax, depth, allow_fail=True, stats=None):
     return t
 
 
-def gen_units(rng, n, names, txns, forced_of, allow_count=True, allow_empty_txn=True):
+def gen_units(rng, n, names, txns, forced_of, allow_count=True, allow_empty_txn=True, allow_zero=False):
     """n delivery units; every contribution gets a distinct power of two as total (a scoped
     transaction metric carries the same value under its two keys)"""
     bits = list(range(n))
@@ -239,6 +239,17 @@ def gen_units(rng, n, names, txns, forced_of, allow_count=True, allow_empty_txn=
         bit = bits[i]
         tot = 1 << bit
         d = [1, tot, rng.randrange(0, 1 << 30), rng.randrange(0, 1 << 30), rng.randrange(0, 1 << 30), rng.randrange(0, 1 << 30)]
+        if allow_zero and rng.random() < 0.08:
+            # an apdex-style contribution (class A only: at capacity the monitor names contributions by their totals): no calls and no time, the other fields carry the information (a failing
+            # transaction contributes (0, 0, 1, t, t, 0)); it must be combined like any other (seeded/C07e2)
+            d = [0, 0, rng.choice([1, 1, 3]), rng.randrange(0, 1 << 20), rng.randrange(0, 1 << 20), rng.choice([0, 0, 5])]
+            if rng.random() < 0.6:
+                txn = rng.choice(txns)
+                units.append({"u": "tm", "name": nm, "txn": txn, "scoped": rng.random() < 0.5, "forced": forced_of(rng, nm, ""), "d": d})
+            else:
+                sc = rng.choice([""] * 2 + txns)
+                units.append({"u": "raw", "name": nm, "scope": sc, "forced": forced_of(rng, nm, sc), "d": d})
+            continue
         if k < 0.45:
             sc = rng.choice([""] * 3 + txns)
             units.append({"u": "raw", "name": nm, "scope": sc, "forced": forced_of(rng, nm, sc), "d": d})
@@ -313,7 +324,7 @@ def gen_case_A(rng, idx, stats):
     txns = rng.sample(["WebTransaction/Uri/a", "OtherTransaction/php/job7", "T"], rng.randint(1, 2))
     consistent = rng.random() < 0.7
     n = rng.randint(3, 36)
-    units = gen_units(rng, n, names, txns, forced_policy(rng, consistent))
+    units = gen_units(rng, n, names, txns, forced_policy(rng, consistent), allow_zero=True)
     with_rules = rng.random() < 0.4
     k = len(distinct_keys(units))
     if with_rules:
